@@ -1,6 +1,7 @@
 package main
 
 import (
+	ibctm "github.com/cosmos/ibc-go/v10/modules/light-clients/07-tendermint"
 	"bytes"
 	"crypto/sha256"
 	"encoding/hex"
@@ -42,6 +43,7 @@ type World struct {
 	ms     storetypes.CommitMultiStore
 	pkey   *storetypes.KVStoreKey
 	envKey *storetypes.KVStoreKey
+	ibcKey *storetypes.KVStoreKey
 	ctx    sdk.Context
 	pk     providerkeeper.Keeper
 	msg    providertypes.MsgServer
@@ -71,6 +73,8 @@ func NewWorld() *World {
 	ms := store.NewCommitMultiStore(db, log.NewNopLogger(), metrics.NewNoOpMetrics())
 	ms.MountStoreWithDB(w.pkey, storetypes.StoreTypeIAVL, nil)
 	ms.MountStoreWithDB(w.envKey, storetypes.StoreTypeIAVL, nil)
+	w.ibcKey = storetypes.NewKVStoreKey("ibc")
+	ms.MountStoreWithDB(w.ibcKey, storetypes.StoreTypeIAVL, nil)
 	ms.MountStoreWithDB(parKey, storetypes.StoreTypeIAVL, nil)
 	ms.MountStoreWithDB(parTKey, storetypes.StoreTypeTransient, nil)
 	if err := ms.LoadLatestVersion(); err != nil {
@@ -80,9 +84,10 @@ func NewWorld() *World {
 	registry := codectypes.NewInterfaceRegistry()
 	cryptocodec.RegisterInterfaces(registry)
 	providertypes.RegisterInterfaces(registry)
+	ibctm.RegisterInterfaces(registry)
 	w.cdc = codec.NewProtoCodec(registry)
 	sub := paramstypes.NewSubspace(w.cdc, codec.NewLegacyAmino(), parKey, parTKey, providertypes.ModuleName)
-	w.env = &Env{key: w.envKey, pool: w.pool, fail: map[string]int{}}
+	w.env = &Env{key: w.envKey, pool: w.pool, fail: map[string]int{}, clientKey: w.ibcKey}
 	w.stk = &StakingK{w.env}
 	w.slk = &SlashingK{w.env}
 	w.chk = &ChanK{w.env}
